@@ -67,6 +67,8 @@ MAY_PANIC = {
     "std::fmt::format": "fmt-to-string",
     "<T as std::string::ToString>::to_string": "fmt-to-string",
     "std::iter::Iterator::step_by": "vec-pos",
+    "std::char::methods::<impl char>::encode_utf8": "buf-size",
+    "std::char::methods::<impl char>::encode_utf16": "buf-size",
     "std::option::Option::unwrap_or_else": None,
 }
 MAY_PANIC = {k: v for k, v in MAY_PANIC.items() if v}
@@ -251,7 +253,7 @@ class PanicRule:
                 return True, "table:%s (%s)" % (e["predicate"], why)
             return False, "table predicate %s no longer holds: %s" % (e["predicate"], why)
         for rule in (self.auto_const_bounds, self.auto_const_divisor, self.auto_index_guarded, self.auto_sep_in_iteration,
-                     self.auto_counter, self.auto_add_under_bound, self.auto_captures_get0, self.auto_fmt):
+                     self.auto_counter, self.auto_add_under_bound, self.auto_captures_get0, self.auto_fmt, self.auto_buf_size):
             r = rule(s)
             if r:
                 return True, r
@@ -270,6 +272,39 @@ class PanicRule:
         for g in gs:
             if g.op == "Lt" and g.a.same(ix) and g.b.same(ln):
                 return "D-auto-1:index < len guard"
+        return None
+
+    def auto_buf_size(self, s):
+        """char::encode_utf8 / encode_utf16 into a fixed array that holds the longest encoding (4 bytes / 2 units)"""
+        if s.cls != "buf-size":
+            return None
+        need = 4 if s.what.endswith("encode_utf8") else 2
+        tys = s.term.get("arg_tys", [])
+        b = s.body
+        # the buffer argument is `&mut [u8; N]` unsized to a slice: find the array local behind it
+        if len(s.term["args"]) < 2:
+            return None
+        pl = op_place(s.term["args"][1])
+        seen = 0
+        while pl is not None and seen < 8:
+            seen += 1
+            ty = b.local_ty(pl["l"]) if not pl["p"] or pl["p"] == ["*"] else ""
+            m = re.search(r"\[(u8|u16); (\d+)\]", ty or "")
+            if m:
+                n = int(m.group(2))
+                if n >= need:
+                    return "D-auto:buffer is a [%s; %d], the longest encoding needs %d" % (m.group(1), n, need)
+                return None
+            sd = b.single_def(pl["l"])
+            if sd is None or sd[1] == "term":
+                return None
+            rv = sd[2]
+            if rv["k"] in ("ref", "rawptr"):
+                pl = rv["place"]
+            elif rv["k"] in ("use", "cast"):
+                pl = op_place(rv["op"])
+            else:
+                return None
         return None
 
     def auto_const_divisor(self, s):
